@@ -4,6 +4,7 @@ import (
 	"fmt"
 	"math"
 	"regexp"
+	"sort"
 	"strings"
 
 	"github.com/ohler55/ojg/jp"
@@ -212,6 +213,125 @@ func suiteText(tier string, seed uint64, model string) *Report {
 		return rep
 	}
 	sans, ans := ans[:len(sreqs)], ans[len(sreqs):]
+	// ---- normal paths (root, children, indexes): printer and parser models of Jp/PathText.v
+	keyPieces := []string{"a", "abc", "k1", "_x", "$r", "@t", "-", "0", "a b", "", "'", "\"", "\\", ".", "..", "*", "[", "]", "a.b", "a[0]", "?", "(", ":", ",", "\n", "\x00", "\x7f",
+		"é", "€", "😀", "\u2028", "\ufeff", "\xff", "\xc3", "a\xffb", "\xed\xa0\x80", "true", "null", "Nothing"}
+	idxs := []int{0, 1, -1, 7, 10, -10, 99, 100, 12345, -2147483648, 4294967296, math.MaxInt64, math.MinInt64 + 1, math.MinInt64, 1000000000000000000, -1000000000000000000, 999999999999999999}
+	type npath struct {
+		x    jp.Expr
+		spec string
+	}
+	var nps []npath
+	mk := func(r *Rng, n int) npath {
+		x := jp.R()
+		var sp []string
+		for j := 0; j < n; j++ {
+			if r.Chance(65) {
+				k := keyPieces[r.Intn(len(keyPieces))]
+				if r.Chance(30) {
+					k += keyPieces[r.Intn(len(keyPieces))]
+				}
+				x = x.C(k)
+				sp = append(sp, "c"+hx([]byte(k)))
+			} else {
+				i := idxs[r.Intn(len(idxs))]
+				if r.Chance(30) {
+					i = r.Intn(2001) - 1000
+				}
+				x = x.N(i)
+				sp = append(sp, fmt.Sprintf("i%d", i))
+			}
+		}
+		return npath{x, strings.Join(sp, " ")}
+	}
+	for _, k := range keyPieces {
+		nps = append(nps, npath{jp.R().C(k), "c" + hx([]byte(k))}, npath{jp.R().C(k).C("z"), "c" + hx([]byte(k)) + " c7a"}, npath{jp.R().N(3).C(k).N(0), "i3 c" + hx([]byte(k)) + " i0"})
+	}
+	for _, i := range idxs {
+		nps = append(nps, npath{jp.R().N(i), fmt.Sprintf("i%d", i)}, npath{jp.R().C("a").N(i).C("b"), fmt.Sprintf("c61 i%d c62", i)})
+	}
+	nn := 1500
+	if tier == "thorough" {
+		nn = 40000
+	}
+	for i := 0; i < nn; i++ {
+		nps = append(nps, mk(r, r.Intn(6)))
+	}
+	var preqs []string
+	for _, np := range nps {
+		preqs = append(preqs, "jppath\t"+np.spec)
+	}
+	pans, err := RunModel(model, preqs)
+	if err != nil {
+		rep.Add(Disagreement{Kind: "harness-error", Detail: err.Error()})
+		return rep
+	}
+	ptexts := map[string]bool{}
+	for i, np := range nps {
+		rep.Evaluations++
+		got := hx([]byte(np.x.String()))
+		if got != pans[i] {
+			rep.Add(Disagreement{Case: np.spec, Where: "Expr.String (normal path)", Kind: "impl-vs-model:path-print", Impl: got, Model: pans[i]})
+		}
+		t := np.x.String()
+		ptexts[t] = true
+		// spellings the printer does not produce: spaces inside brackets, the other quote
+		ptexts[strings.ReplaceAll(strings.ReplaceAll(t, "[", "[ "), "]", " ]")] = true
+		ptexts[strings.ReplaceAll(t, "['", "[\"")] = true
+	}
+	for _, t := range []string{"$", "$.a", "$[007]", "$[-0]", "$[ 1 ]", "$['a' ]", "$[\"a\"]", "$.a.b[1]", "$.a..b", "$.*", "$[*]", "$.a[", "$[1", "$['a'", "$.", "$[]", "$[-]", "$[1 2]", "$.a b", "$x", "a.b", "@.a", "$[1,2]", "$[1:2]", "$['a','b']", "$[+1]", "$.a['b'].c"} {
+		ptexts[t] = true
+	}
+	var ptl []string
+	for t := range ptexts {
+		ptl = append(ptl, t)
+	}
+	sort.Strings(ptl)
+	preqs = preqs[:0]
+	for _, t := range ptl {
+		preqs = append(preqs, "jpparse\t"+hx([]byte(t)))
+	}
+	pans, err = RunModel(model, preqs)
+	if err != nil {
+		rep.Add(Disagreement{Kind: "harness-error", Detail: err.Error()})
+		return rep
+	}
+	pin := 0
+	for i, t := range ptl {
+		rep.Evaluations++
+		if pans[i] == "-" {
+			continue // outside the model of normal paths (or rejected)
+		}
+		pin++
+		got := safe(func() string {
+			y, err := jp.ParseString(t)
+			if err != nil {
+				return "E " + err.Error()
+			}
+			if len(y) == 0 {
+				return "? empty"
+			}
+			if _, ok := y[0].(jp.Root); !ok {
+				return fmt.Sprintf("? first %T", y[0])
+			}
+			var sp []string
+			for _, f := range y[1:] {
+				switch tf := f.(type) {
+				case jp.Child:
+					sp = append(sp, "c"+hx([]byte(string(tf))))
+				case jp.Nth:
+					sp = append(sp, fmt.Sprintf("i%d", int(tf)))
+				default:
+					sp = append(sp, fmt.Sprintf("?%T", f))
+				}
+			}
+			return strings.TrimSpace("O " + strings.Join(sp, " "))
+		})
+		if got != strings.TrimSpace(pans[i]) {
+			rep.Add(Disagreement{Case: fmt.Sprintf("%q", t), Where: "jp.ParseString vs parse_path", Kind: "impl-vs-model:path-parse", Impl: got, Model: pans[i]})
+		}
+	}
+	rep.Count(fmt.Sprintf("path-text-model:printed=%d parsed-in-domain=%d of %d", len(nps), pin, len(ptl)))
 	rans, err := RunModel(model, rreqs)
 	if err != nil {
 		rep.Add(Disagreement{Kind: "harness-error", Detail: err.Error()})
